@@ -420,7 +420,11 @@ func FuzzPositions(f *testing.F) { posCheck.Fuzz(f, genPositions) }
 
 // genParserErrorPositions is the case generator of perrCheck (shared by the rapid run and the native fuzz target).
 func genParserErrorPositions(rt *rapid.T) PErrCase {
-	g := sqlgen.New(rt, sqlgen.AllFeatures())
+	// MERGE, DDL, ALTER and partitioning too; not the MySQL forms: SHOW <anything> and the mode words of
+	// MATCH .. AGAINST (..) accept arbitrary tokens, so a stray token there is not the offending one
+	sf := sqlgen.FullFeatures()
+	sf.MySQL = false
+	g := sqlgen.New(rt, sf)
 	st := sqlgen.Statement(g)
 	var r corrupt.Result
 	exact := false
